@@ -22,7 +22,7 @@ from hpstatic.fortran import FortranProgram
 from hpstatic.interp import Interp, expr_term
 from hpstatic.loader import AnalysisError
 from hpstatic.poly import Canon
-from hpstatic.terms import sym, intern, show, subterms, num
+from hpstatic.terms import sym, intern, show, subterms, num, is_num
 from .common import THEORY, init_of
 
 MUTATION_TARGETS = {'holopy/scattering/theory/tmatrix.py': ['_parse_args', '_run_tmat', 'can_handle', 'raw_fields', 'raw_scat_matrs']}
@@ -271,12 +271,18 @@ def handoff(check, prog):
         'thet0': '0', 'phi0': '0', 'ndgs': None,
     }
     cases = [
-        ('Sphere', sph, {'axi': 'a', 'eps': '1', 'alpha': '0', 'beta': '0'}),
-        ('Spheroid', sro2, {'axi': '(b*a**2)**(1/3.)', 'eps': 'a/b',
-                            'alpha': 'r2*180/np.pi', 'beta': 'r1*180/np.pi'}),
-        ('Cylinder', cyl, {'eps': '(d/2)/(h/2)',
-                           'alpha': 'r2*180/np.pi', 'beta': 'r1*180/np.pi'}),
+        ('Sphere', sph, {'axi': 'a', 'eps': '1'}),
+        ('Spheroid', sro2, {'axi': '(b*a**2)**(1/3.)', 'eps': 'a/b'}),
+        ('Cylinder', cyl, {'eps': '(d/2)/(h/2)'}),
     ]
+    # orientation: the two angles the solver gets (degrees) denote the axis the
+    # scatterer's rotation gives, and lie in the range outside which the solver
+    # ends the interpreter
+    for cname, got, angles in (('Sphere', sph, ('0', '0')),
+                               ('Spheroid', sro2, ('r2*180/np.pi', 'r1*180/np.pi')),
+                               ('Cylinder', cyl, ('r2*180/np.pi', 'r1*180/np.pi'))):
+        euler_handoff(check, canon, loc, cname, got['alpha'], got['beta'],
+                      O(angles[0]), O(angles[1]))
     for cname, got, spec in cases:
         allspec = dict(oracle_common)
         allspec.update(spec)
@@ -425,6 +431,136 @@ def handoff(check, prog):
     # the per-point 2 x 2 blocks: which ampld output sits where
     sphere_limit(check, prog)
 
+
+
+def euler_handoff(check, canon, loc, cname, alpha, beta, A, B):
+    """E5 / E3 for the orientation arguments.  (alpha, beta) are the azimuth and
+    polar angle, in degrees, of the particle's axis: the direction
+    (sin b cos a, sin b sin a, cos b).  For every truth assignment of the guards in
+    the two terms, (1) the direction equals the one of (A, B) -- the scatterer's
+    own angles in degrees -- for all real A, B, decided modulo 360 with
+    sin(s x + 180 k) = s (-1)^k sin x, cos(s x + 180 k) = (-1)^k cos x;
+    (2) 0 <= alpha <= 360 and 0 <= beta <= 180 by interval evaluation, the guard
+    refining the interval of the term it tests (AMPL: STOP outside that range)."""
+    import itertools
+    INF = float('inf')
+    guards = []
+    for t in (alpha, beta):
+        for x in subterms(t):
+            if x[0] == 'ite' and x[1] not in guards:
+                guards.append(x[1])
+
+    def resolve(t, val):
+        if t[0] == 'ite':
+            return resolve(t[2] if val[t[1]] else t[3], val)
+        if t[0] == 'bin':
+            return intern(('bin', t[1], resolve(t[2], val), resolve(t[3], val)))
+        if t[0] == 'un':
+            return intern(('un', t[1], resolve(t[2], val)))
+        return t
+
+    def strip_mod(t):
+        if t[0] == 'bin' and t[1] == '%' and t[3] == num(360):
+            return strip_mod(t[2])
+        if t[0] == 'bin':
+            return intern(('bin', t[1], strip_mod(t[2]), strip_mod(t[3])))
+        if t[0] == 'un':
+            return intern(('un', t[1], strip_mod(t[2])))
+        return t
+
+    def form(t, base):
+        """(s, k) with t == s * base + 180 k modulo 360, or None"""
+        u = strip_mod(t)
+        for s_ in (1, -1):
+            for k in range(-4, 5):
+                want = intern(('bin', '+', ('bin', '*', num(s_), base), num(180 * k)))
+                if canon.equal(u, want):
+                    return s_, k % 2
+        return None
+
+    def interval(t, env):
+        if t in env:
+            return env[t]
+        if is_num(t):
+            v = float(t[1])
+            return (v, v)
+        if t[0] == 'bin' and t[1] == '%' and is_num(t[3]) and float(t[3][1]) > 0:
+            lo, hi = interval(t[2], env)
+            m = float(t[3][1])
+            if 0 <= lo and hi < m:
+                return (lo, hi)
+            return (0.0, m)
+        if t[0] == 'bin' and t[1] in '+-':
+            a, b = interval(t[2], env), interval(t[3], env)
+            return (a[0] + b[0], a[1] + b[1]) if t[1] == '+' else (a[0] - b[1], a[1] - b[0])
+        if t[0] == 'un' and t[1] == '-':
+            a = interval(t[2], env)
+            return (-a[1], -a[0])
+        return (-INF, INF)
+
+    def refine(g, truth, env):
+        """env with the interval of the term a comparison guard tests narrowed;
+        None if the guard cannot hold"""
+        if g[0] != 'cmp' or g[1] not in ('<', '<=', '>', '>='):
+            return env
+        op, x, c = g[1], g[2], g[3]
+        if is_num(x) and not is_num(c):
+            op = {'<': '>', '<=': '>=', '>': '<', '>=': '<='}[op]
+            x, c = c, x
+        if not is_num(c):
+            return env
+        if not truth:
+            op = {'<': '>=', '<=': '>', '>': '<=', '>=': '<'}[op]
+        lo, hi = interval(x, env)
+        v = float(c[1])
+        if op in ('<', '<='):
+            hi = min(hi, v)
+        else:
+            lo = max(lo, v)
+        if lo > hi:
+            return None
+        env = dict(env)
+        env[x] = (lo, hi)
+        return env
+    ncase = 0
+    for values in itertools.product((True, False), repeat=len(guards)):
+        val = dict(zip(guards, values))
+        env = {}
+        for g, v in val.items():
+            env = refine(g, v, env) if env is not None else None
+        if env is None:
+            continue            # this combination of guards cannot occur
+        ncase += 1
+        a_t, b_t = resolve(alpha, val), resolve(beta, val)
+        tag = '%s [%s]' % (cname, ', '.join(
+            '%s%s' % ('' if v else 'not ', canon.show(g)[:40]) for g, v in val.items())
+            or 'always')
+        fa, fb = form(a_t, A), form(b_t, B)
+        same = fa is not None and fb is not None
+        if same:
+            (sa, ka), (sb, kb) = fa, fb
+            # cos b = (-1)^kb cos B; sin b = sb (-1)^kb sin B;
+            # cos a = (-1)^ka cos A; sin a = sa (-1)^ka sin A
+            sin_b = sb * (-1) ** kb
+            same = kb == 0 and sin_b * (-1) ** ka == 1 and sin_b * sa * (-1) ** ka == 1
+        zero = canon.equal(B, num(0))      # (a sphere: no axis to speak of)
+        check.require(same or zero, 'E5-handoff-formula',
+                      'Tmatrix._parse_args orientation ' + tag,
+                      'the axis at (alpha, beta) is the axis the rotation (r2, r1) gives',
+                      loc, fail_detail='alpha = %s, beta = %s do not denote the direction '
+                      'of (%s, %s) for all real angles' % (
+                          canon.show(a_t)[:60], canon.show(b_t)[:60],
+                          canon.show(A)[:30], canon.show(B)[:30]))
+        ia, ib = interval(a_t, env), interval(b_t, env)
+        check.require(0 <= ia[0] and ia[1] <= 360 and 0 <= ib[0] and ib[1] <= 180,
+                      'E3-angle-range', 'Tmatrix._parse_args orientation ' + tag,
+                      '0 <= alpha <= 360 and 0 <= beta <= 180 for every real rotation',
+                      loc, fail_detail='alpha in [%g, %g], beta in [%g, %g]: outside '
+                      '0..360 / 0..180 the compiled code (AMPL) executes STOP, which '
+                      'ends the Python process with exit status 0 -- a negative '
+                      'Euler angle, or one beyond pi (2 pi), proposed inside a '
+                      'prior\'s support kills a fit or a sampler mid-run' % (ia + ib))
+    check.floor('orientation cases of %s' % cname, ncase, 1)
 
 
 # ----------------------------------------------------------------------
